@@ -415,7 +415,7 @@ package plenccodec
 //@   loop 2 step[C10,C01] called_Codec_Read && call_Codec_Read_arg2 == loadptr(ptr) + head_i * int(c.EltSize) && call_Codec_Read_arg0 == c.Underlying && i == head_i + 1
 //@   loop 1 step[C10] called_typedmemclr && call_typedmemclr_arg1 == loadptr(ptr) + head_i * int(c.EltSize) && i == head_i + 1
 //@   # the repeated-field form (one element per occurrence of the field, wire type 2) is handed to readAsWTLength whole
-//@   ensures[C12,C10] wt == 2 ==> called_WTLengthSliceWrapper_readAsWTLength && n == call_WTLengthSliceWrapper_readAsWTLength_r0 && err == call_WTLengthSliceWrapper_readAsWTLength_r1 && len(call_WTLengthSliceWrapper_readAsWTLength_arg1) == len(data) && call_WTLengthSliceWrapper_readAsWTLength_arg2 == ptr && !called_ReadVarUint
+//@   ensures[C12,C10] wt == 2 ==> called_WTLengthSliceWrapper_readAsWTLength && n == call_WTLengthSliceWrapper_readAsWTLength_r0 && err == call_WTLengthSliceWrapper_readAsWTLength_r1 && len(call_WTLengthSliceWrapper_readAsWTLength_arg1) == len(data) && call_WTLengthSliceWrapper_readAsWTLength_arg2 == ptr
 //@   ensures[C10,C01] wt != 2 && err == nil ==> loopdone_2 || (called_ReadVarUint && call_ReadVarUint_r0 == 0 && loadi64(ptr + 8) == 0)    # ... or nothing was to be read and the target is empty
 
 //@ func plenccodec.WTLengthSliceWrapper.readAsWTLength
